@@ -8,7 +8,7 @@ from sa.emit import Elem, walk_elems
 from sa.flow import show, sig, subterms
 from sa.model import AnalysisError, norm, parent, walk_no_nested
 
-from .common import lazy_reuse_rule, atomic_deps, include_rules, alts, callers_of, commands, is_call, is_plain_iter, loop_iteration_paths, need, prov, unshipped_modules
+from .common import neg_zero_slice_rule, lazy_reuse_rule, atomic_deps, include_rules, alts, callers_of, commands, is_call, is_plain_iter, loop_iteration_paths, need, prov, unshipped_modules
 from .c12 import traversal_funcs
 from .xmlcommon import documents
 
@@ -93,6 +93,8 @@ def run(report, p):
         last = t.node.body[-1]
         okl = isinstance(last, ast.Expr) and isinstance(last.value, ast.Yield) and isinstance(last.value.value, ast.Tuple) and len(last.value.value.elts) == 2 and norm(last.value.value.elts[0]) == top and norm(last.value.value.elts[1]) in aliases
         r1.check(okl, t, last, "the traversal does not end by yielding (top, the full children list)", construct=f"final yield {norm(last)[:60]}")
+
+    neg_zero_slice_rule(report, p, pr, 'R2.10', [need(cmds, 'create').qual], 'create')
 
     # ------------------------------------------------------------------ R2.9
     r9 = report.rule(
